@@ -112,6 +112,14 @@ fn c02_reads_reach_eof_after_all_bytes() {
     kani::cover!(eof, "EOF after all bytes");
 }
 }
+// @verif id=C02 tier=quick role=read_half timeout=900 mem=16 desc=read(4),read(4),peek(4)->EOF,read(4)->EOF
+crate::verif_proof! { unwind = 8;
+fn c02_eof_first_seen_by_a_peek_is_still_there_for_the_read() {
+    let (pos, eof) = read_schedule::<2, 4>([(false, 4), (false, 4), (true, 4), (false, 4)], true);
+    assert!(pos == 3 && eof);
+    kani::cover!(eof, "EOF peeked, then read");
+}
+}
 // @verif id=C02 tier=thorough role=read_half timeout=1800 mem=24 desc=read(1),read(1),peek(2),read(1)
 crate::verif_proof! { unwind = 8;
 fn c02_byte_wise_reads_cross_segment_boundary() {
